@@ -297,9 +297,15 @@ def install(w):
         return [[rank(t) <= d for t in tys] for d in (1, 2, 3)]
     w.model_prefs_fns.append(model_prefs)
 
-    w.identical_ext = lambda it, a, b, node: (
-        (a.t == b.t) if isinstance(a, VTy) and isinstance(b, VTy) else
-        (z3.BoolVal(False) if isinstance(a, VTy) != isinstance(b, VTy) else None))
+    prev_ident = getattr(w, "identical_ext", None)
+
+    def identical_ext(it, a, b, node):
+        if isinstance(a, VTy) and isinstance(b, VTy):
+            return a.t == b.t
+        if isinstance(a, VTy) != isinstance(b, VTy):
+            return z3.BoolVal(False)
+        return prev_ident(it, a, b, node) if prev_ident else None
+    w.identical_ext = identical_ext
 
     prev_fresh = getattr(w, "fresh_ext", None)
 
